@@ -15,6 +15,7 @@ import (
 	"sort"
 	"strings"
 	"sync"
+	"sync/atomic"
 	"time"
 
 	"golang.org/x/tools/go/packages"
@@ -47,6 +48,12 @@ type Engine struct {
 	noIfConv       bool
 	noSlice        bool
 	noGuess        bool
+	pinChoices     map[string]uint64
+	stop           int32
+	earlyStop      bool
+	prop           string
+	confirmed      map[string]confirmation
+	knownList      []knownFinding
 	ifConvInts     bool
 	concreteCopies bool
 
@@ -66,6 +73,20 @@ type Engine struct {
 	decisions   int
 	steps       int64
 	samples     []string
+}
+
+type confirmation struct {
+	path string
+	ok   bool
+}
+
+func (e *Engine) isKnown(v *Violation) bool {
+	for _, k := range e.knownList {
+		if k.Status == "open" && k.Property == e.prop && k.Signature == v.Sig() {
+			return true
+		}
+	}
+	return false
 }
 
 type oblStat struct {
@@ -388,6 +409,9 @@ func (e *Engine) runHarnesses(hs []*ssa.Function) {
 			defer solver.Close()
 			for {
 				qmu.Lock()
+				if atomic.LoadInt32(&e.stop) != 0 {
+					queue = nil
+				}
 				for len(queue) == 0 && pending > 0 {
 					cond.Wait()
 				}
@@ -406,8 +430,10 @@ func (e *Engine) runHarnesses(hs []*ssa.Function) {
 				e.collect(ex, it.h, status, msg)
 
 				qmu.Lock()
-				for _, a := range ex.alts {
-					queue = append(queue, workItem{it.h, a})
+				if atomic.LoadInt32(&e.stop) == 0 {
+					for _, a := range ex.alts {
+						queue = append(queue, workItem{it.h, a})
+					}
 				}
 				pending--
 				qmu.Unlock()
@@ -455,10 +481,29 @@ func (e *Engine) collect(ex *Exec, h *ssa.Function, status, msg string) {
 	for _, a := range ex.accel {
 		e.accelLoops[a] = true
 	}
+	var fresh []*Violation
 	for _, v := range ex.violations {
 		if _, ok := e.violations[v.Sig()]; !ok {
 			e.violations[v.Sig()] = v
+			fresh = append(fresh, v)
 		}
+	}
+	if len(fresh) > 0 && e.earlyStop {
+		// confirm outside the lock; a confirmed, unlisted violation ends the exploration early
+		e.mu.Unlock()
+		for _, v := range fresh {
+			if e.isKnown(v) {
+				continue
+			}
+			path, ok := e.writeReplay(e.prop, v)
+			e.mu.Lock()
+			e.confirmed[v.Sig()] = confirmation{path, ok}
+			e.mu.Unlock()
+			if ok {
+				atomic.StoreInt32(&e.stop, 1)
+			}
+		}
+		e.mu.Lock()
 	}
 	if e.verbose {
 		fmt.Fprintf(os.Stderr, "[path] %s %v -> %s %s (steps %d, pc %d, alts %d)\n", h.Name(), compactPath(ex.decs), status, msg, ex.steps, len(ex.pc), len(ex.alts))
@@ -622,7 +667,7 @@ func newEngine() *Engine {
 		stats: &Stats{}, maxVisits: 200000, maxSteps: 20000000, unwind: 64, forkMinMax: true, workers: runtime.NumCPU(),
 		bounds: map[string]int64{}, obligations: map[string]*oblStat{}, inconcl: map[string]int{}, stubCache: map[string]*ssa.Function{},
 		choices: map[string]map[int]int{}, funcsRun: map[string]int{}, intrUsed: map[string]bool{}, accelLoops: map[string]bool{},
-		reached: map[string]bool{}, violations: map[string]*Violation{}}
+		reached: map[string]bool{}, violations: map[string]*Violation{}, confirmed: map[string]confirmation{}, earlyStop: true}
 	if v := os.Getenv("VERIF_REPO"); v != "" {
 		e.repoDir = v
 	}
